@@ -11,6 +11,15 @@ LEVEL = "model_checking"
 
 
 def run(ev, vd):
+    # implementation-shaped model of the edge exchange (inspection counts, buffered sends, count-terminated receive loop)
+    SPD = os.path.join(SPECS, "dist")
+    r = tlc(os.path.join(SPD, "MCCuspExchange.tla"), cfg=os.path.join(SPD, "MCCuspExchange.cfg"), workers=NCPU, timeout=1800)
+    ev.add_tlc("MCCuspExchange.cfg", r)
+    if not r.ok:
+        raise ToolError("CuspExchange violates %s:\n%s" % (r.violation, r.out[-1500:]))
+    r = tlc(os.path.join(SPD, "MCCuspExchange.tla"), cfg=os.path.join(SPD, "MCCuspExchange_mutant.cfg"), workers=NCPU, timeout=900)
+    if r.ok:
+        raise ToolError("CuspExchange does not distinguish its mutant (vacuous model?)")
     c18.ROUNDS = False
     try:
         trace = os.path.join(BUILD, "tmp", "cusp.ndjson")
@@ -46,7 +55,7 @@ def run(ev, vd):
         "complete dumps (judged by TLC) for graphs with at most 13 nodes; graphs with 3000-9000 nodes and hubs above the hybrid-cut threshold are judged from per-host counts (edges and masters add up, id maps, mirror lists, edge-cut placement); 32-bit edge data",
         "read-balancing options other than the default, masters files, saved local graphs and MiningPartitioner are not exercised",
         "cartesian / hybrid vertex-cut specific placement rules are not checked beyond the common promises; edge cuts are (edges stored with the master of their source resp. destination)"]
-    ev.cov["engines"] = ["free", "tv"]
+    ev.cov["engines"] = ["mc", "free", "tv"]
 
 
 replay = c18.replay
